@@ -60,50 +60,58 @@ def image_enumeration(ctx, F, dim):
     return new, eh, ip, evs
 
 
+def image_ranges(ctx, F, dim):
+    """-> (constructor body, seeding event or None, [range (lo, hi) | None per axis], [component RF per axis])"""
+    import re
+    new, eh, ip, evs = image_enumeration(ctx, F, dim)
+    if len(evs) != 1:
+        return new, None, [None] * 3, [None] * 3
+    e = evs[0]
+    sh = e.fargs[2]
+    comps = [as_rf(I.get_index(sh, RF.const(i), 'f64')) for i in range(3)]
+    nexts = {I.vkey(I.frozen(x.result)): x for x in next_events(ip, new)}
+    used = set()
+    out = []
+    for c in range(3):
+        wsym = RF.sym('w%d' % c)
+        coef = comps[c] / wsym
+        at = I.single_atom(coef)
+        rng = None
+        if coef.is_const():
+            rng = (coef.const_value(), coef.const_value())
+        elif at is not None:
+            for k, x in nexts.items():
+                r = resolve_item(at, x.result, ('pos', 'range'))
+                if r is not None and not r[1]:
+                    chain, src = loop_stream(ip, x)
+                    names = [n for n, _ in chain]
+                    rec, li = loop_record_of(ip, x)
+                    txt = repr(I.frozen(rec['init'][li]))
+                    m = re.search(r'RangeInclusive::new\((-?\d+), (-?\d+)\)', txt)
+                    bad_ad = [n for n in names if n not in ('into_iter', 'clone', 'new')]
+                    if m and not bad_ad and k not in used:
+                        rng = (int(m.group(1)), int(m.group(2)))
+                    used.add(k)
+        out.append(rng)
+    return new, e, out, comps
+
+
 def r1(ctx, F, rule, sfx):
     for dim in routes.DIMS:
-        new, eh, ip, evs = image_enumeration(ctx, F, dim)
+        new, e, rngs, comps = image_ranges(ctx, F, dim)
         w = where(new)
-        if len(evs) != 1:
-            ctx.bad(rule, '%s:seed-site%s' % (dim, sfx), '%d heap-seeding calls evaluated' % len(evs), 'one call inside the image loops', w, key_extra='sites')
+        if e is None:
+            ctx.bad(rule, '%s:seed-site%s' % (dim, sfx), 'heap-seeding calls evaluated != 1', 'one call inside the image loops', w, key_extra='sites')
             continue
-        e = evs[0]
         ctx.check(rule, '%s:seeds-root-children%s' % (dim, sfx), repr(e.fargs[1]) == 'call:rstar::ParentNode::children(root)', repr(e.fargs[1])[:80], 'root.children()', where(new, e.line), key_extra='children')
-        sh = e.fargs[2]
-        comps = [as_rf(I.get_index(sh, RF.const(i), 'f64')) for i in range(3)]
-        # ranges of the enclosing loops, by the next-event atoms appearing in the shift
-        nexts = {I.vkey(I.frozen(x.result)): x for x in next_events(ip, new)}
-        used = set()
         for c in range(3):
-            wsym = RF.sym('w%d' % c)
-            coef = comps[c] / wsym
             inst = '%s:axis-%s%s' % (dim, 'xyz'[c], sfx)
-            at = I.single_atom(coef)
-            rng = None
-            if coef.is_const():
-                rng = (coef.const_value(), coef.const_value())
-            elif at is not None:
-                # the integer counter of one loop
-                for k, x in nexts.items():
-                    r = resolve_item(at, x.result, ('pos', 'range'))
-                    if r is not None and not r[1]:
-                        chain, src = loop_stream(ip, x)
-                        names = [n for n, _ in chain]
-                        txt = repr(I.frozen(loop_record_of(ip, x)[0]['init'][loop_record_of(ip, x)[1]]))
-                        import re
-                        m = re.search(r'RangeInclusive::new\((-?\d+), (-?\d+)\)', txt)
-                        bad_ad = [n for n in names if n not in ('into_iter', 'clone', 'new')]
-                        if m and not bad_ad:
-                            rng = (int(m.group(1)), int(m.group(2)))
-                            if k in used:
-                                rng = None
-                            used.add(k)
+            rng = rngs[c]
             want = (-1, 1) if c < NACT[dim] else (0, 0)
             if rng is None:
                 ctx.bad(rule, inst, 'shift component %r' % comps[c], 'n * w_%s with n ranging over %s..=%s' % ('xyz'[c], want[0], want[1]), where(new, e.line), key_extra='component')
             else:
                 ctx.check(rule, inst, rng == want, 'n * w_%s, n in %s..=%s' % ('xyz'[c], rng[0], rng[1]), 'n in %s..=%s' % want, where(new, e.line), key_extra='range:%s' % (rng,))
-        # each combination once: the seeding call is guarded only by the loop conditions
         extra = [g for g in e.guard if not (dtab.is_discr_eq(g) and '::next(' in repr(g))]
         ctx.check(rule, '%s:every-combination-seeded%s' % (dim, sfx), not extra, [repr(g)[:80] for g in extra], 'unconditional inside the loops', where(new, e.line), key_extra='guard')
     # children inherit their parent's shift
